@@ -919,6 +919,16 @@ def refresh_tables(chk, proof_ok):
         if not build.ok:
             print(build.log[-3000:])
         chk.notes.append('EpsieModel/Generated/Sharing.lean was stale: regenerated from /repo, rebuilt, re-audited')
+    if not proof_ok:
+        # the project build failed in another property's file, or this property's module is not (yet)
+        # imported by the root file: its own module (and everything it imports) may still check
+        whole = chk.build
+        mine = common.lean_build(['EpsieProps.' + chk.prop])
+        if mine.ok:
+            chk.obligations = []
+            proof_ok = chk.lean(mine)
+            chk.notes.append('project build: %s; EpsieProps.%s and its imports were built and audited on their own' % (
+                'ok' if whole.ok else 'failed in %s' % (whole.failed_modules or 'another module'), chk.prop))
     global _VARIANT
     v = _VARIANT = info['variant']
     excluded = []
